@@ -385,6 +385,79 @@ fn foreign_part(ctx: &Ctx, job: usize, rounds: u64) -> Stats {
     st
 }
 
+/// A symbol type whose `Hash` writes nothing (legal: equal values hash equally). Every pair of
+/// diagrams of the same shape then collides in the derived hash, so anything that confuses "same
+/// hash" with "same diagram" shows up as a wrong value.
+#[derive(Clone, Debug, PartialEq, Eq, PartialOrd, Ord)]
+pub struct WeakSym(pub u32);
+
+impl std::hash::Hash for WeakSym {
+    fn hash<H: std::hash::Hasher>(&self, _state: &mut H) {}
+}
+
+impl std::fmt::Display for WeakSym {
+    fn fmt(&self, f: &mut std::fmt::Formatter<'_>) -> std::fmt::Result {
+        write!(f, "w{}", self.0)
+    }
+}
+
+fn weak_hash_part(ctx: &Ctx, job: usize, iters: u64) -> Stats {
+    let mut st = Stats::new();
+    let mut rng = Rng::stream(ctx.seed, "C03.weakhash", job as u64);
+    let syms: Vec<WeakSym> = vec![WeakSym(1), WeakSym(2), WeakSym(5), WeakSym(9)];
+    let n = syms.len() as u32;
+    let idx = |s: &WeakSym| syms.iter().position(|x| x == s).map(|p| p as u32);
+    let vars: Vec<(WeakSym, u32)> = syms.iter().enumerate().map(|(i, s)| (s.clone(), i as u32)).collect();
+    let mut env: BDDEnv<WeakSym> = BDDEnv::new();
+    for it in 0..iters {
+        if it % 200 == 0 {
+            env = BDDEnv::new(); // every lookup walks one hash bucket: keep tables small
+        }
+        let mut mk = |rng: &mut Rng| {
+            let mut t = Tt::constant(n, false);
+            for a in 0..t.size() {
+                t.set(a, rng.chance(1, 2));
+            }
+            for i in 0..n {
+                if rng.chance(1, 3) {
+                    t = t.cofactor(i, rng.chance(1, 2));
+                }
+            }
+            let d = build_in_env(&env, &t, &vars);
+            let snap = deep_copy(&d);
+            (d, snap, t)
+        };
+        let a = mk(&mut rng);
+        let b = mk(&mut rng);
+        let c = mk(&mut rng);
+        st.evals += 1;
+        st.bump("weak_hash_symbol_calls");
+        let use_ite = rng.chance(1, 3);
+        let op = *rng.pick(&BIN_OPS);
+        let case = json!({"kind": "weak-hash", "seed": ctx.seed, "job": job});
+        util::budget(5_000_000, 1000);
+        let r = guarded(|| if use_ite { env.ite(Rc::clone(&a.0), Rc::clone(&b.0), Rc::clone(&c.0)) } else { apply_engine(&env, op, &a.0, &b.0) });
+        match r {
+            Ok(r) => {
+                let want = if use_ite { a.2.ite(&b.2, &c.2) } else { apply_ref(op, &a.2, &b.2) };
+                let got = tt_of_bdd(&r, n, &idx);
+                if got.as_ref().ok() != Some(&want) {
+                    let name = if use_ite { "ite" } else { op };
+                    st.violate("c03.pointwise", format!("C03:{}:wrong-value", name), format!("environment over a symbol type with a constant hash: {}({}, {}{}) = {} table {:?} expected {}", name, short(&a.0), short(&b.0), if use_ite { format!(", {}", short(&c.0)) } else { String::new() }, short(&r), got, want.hex()), case.clone());
+                }
+                if a.0.as_ref() != a.1.as_ref() || b.0.as_ref() != b.1.as_ref() {
+                    st.violate("c03.operands-unchanged", "C03:weak-hash:operand-changed".into(), "operand changed".into(), case);
+                }
+                if !a.2.is_const() && !b.2.is_const() {
+                    st.nt.insert(mix(mix(util::hash_str(op), a.2.hash64()), mix(b.2.hash64(), 0x3eac)));
+                }
+            }
+            Err(cg) => st.violate("c03.panic", format!("C03:weak-hash:{}", cg.signature()), format!("{:?}", cg), case),
+        }
+    }
+    st
+}
+
 fn named_part(ctx: &Ctx, job: usize, iters: u64) -> Stats {
     // same monitor over BDDEnv<NamedSymbol> (labels compare by id; names are only display)
     let mut st = Stats::new();
@@ -496,12 +569,13 @@ pub fn run(ctx: &Ctx) -> (Stats, Spec) {
         let mut s = random_part(ctx, job, iters);
         s.merge(named_part(ctx, job, iters / 2));
         s.merge(foreign_part(ctx, job, iters / 20));
+        s.merge(weak_hash_part(ctx, job, iters / 4));
         s
     });
     st.merge(crate::report::merge_all(parts));
 
     let spec = Spec {
-        rule: "exhaustive: every ordered pair (triple for ite) of Boolean functions over 3 (2) variables in every argument position, under 5 label configurations (adjacent, interleaved-disjoint, extreme indices incl. usize::MAX, overlapping, disjoint-nested); random: operands over 4-6 sparse labels built by random routes with overlapping/nested/disjoint supports, BDDEnv<usize> and BDDEnv<NamedSymbol>; rounds with operands NOT built by the environment (plain unshared diagrams, dropped after use, thousands of rounds on one environment). distinct = (connective, operand tables, configuration); non-trivial = every operand non-constant.".into(),
+        rule: "exhaustive: every ordered pair (triple for ite) of Boolean functions over 3 (2) variables in every argument position, under 5 label configurations (adjacent, interleaved-disjoint, extreme indices incl. usize::MAX, overlapping, disjoint-nested); random: operands over 4-6 sparse labels built by random routes with overlapping/nested/disjoint supports, BDDEnv<usize>, BDDEnv<NamedSymbol> and an environment over a symbol type whose Hash writes nothing (every same-shape pair of diagrams collides); rounds with operands NOT built by the environment (plain unshared diagrams, dropped after use, thousands of rounds on one environment). distinct = (connective, operand tables, configuration); non-trivial = every operand non-constant.".into(),
         assumptions: vec![
             "operands are diagrams produced by the same environment over a common variable order (the statement's precondition)".into(),
             "the value of a diagram is read by following T/F edges from the root (tt_of_bdd), independent of any engine operation".into(),
@@ -512,6 +586,7 @@ pub fn run(ctx: &Ctx) -> (Stats, Spec) {
             ("op_not".into(), 100, "not never exercised".into()),
             ("named_symbol_calls".into(), 100, "NamedSymbol environment never exercised".into()),
             ("foreign_operand_rounds".into(), 1_000, "operands built outside the environment never exercised".into()),
+            ("weak_hash_symbol_calls".into(), 5_000, "environment over a constant-hash symbol type never exercised".into()),
             ("distinct_nontrivial".into(), 1000, "too few non-trivial cases".into()),
         ],
     };
@@ -555,6 +630,12 @@ pub fn replay(_ctx: &Ctx, _monitor: &str, case: &Value, st: &mut Stats) {
             if let (Some(a), Some(b), Some(c)) = (get("a"), get("b"), get("c")) {
                 check_ite(st, &env, &mk(a), &mk(b), &mk(c), &uni, "replay");
             }
+        }
+        "weak-hash" => {
+            let job = case.get("job").and_then(|j| j.as_u64()).unwrap_or(0) as usize;
+            let mut c2 = _ctx.clone();
+            c2.seed = case.get("seed").and_then(|j| j.as_u64()).unwrap_or(_ctx.seed);
+            st.merge(weak_hash_part(&c2, job, 10_000));
         }
         "foreign" => {
             let job = case.get("job").and_then(|j| j.as_u64()).unwrap_or(0) as usize;
